@@ -121,7 +121,7 @@ struct RemoteConn {
 /// rayon pool. Exactly one thread of the simulation runs at any time: the scheduler hands the
 /// baton over with `Cmd` and waits for the next `Evt` of that thread. Hook H2's yield callback
 /// makes every pipeline stage boundary inside `solve_instance` a preemption point.
-fn spawn_remote(router: axum::Router, pipe: SimPipe, flag: Arc<Flag>) -> RemoteConn {
+fn spawn_remote(router: axum::Router, pipe: SimPipe, flag: Arc<Flag>, rt: tokio::runtime::Handle) -> RemoteConn {
     let (cmd_tx, cmd_rx) = std::sync::mpsc::channel::<Cmd>();
     let (evt_tx, evt_rx) = std::sync::mpsc::channel::<Evt>();
     let handle = std::thread::Builder::new()
@@ -146,6 +146,7 @@ fn spawn_remote(router: axum::Router, pipe: SimPipe, flag: Arc<Flag>) -> RemoteC
                         let f = fut.as_mut().unwrap();
                         let (etx, crx) = (evt_tx.clone(), cmd_rx.clone());
                         let r = pool.install(|| {
+                            let _g = rt.enter();
                             let (etx2, crx2) = (etx.clone(), crx.clone());
                             server::verif_hooks::set_yield(Some(Box::new(move |tag: &'static str| {
                                 // give the baton back and wait until the scheduler resumes this solve
@@ -207,11 +208,11 @@ fn real_router() -> Result<axum::Router, String> {
     }
 }
 
-fn new_conn(router: &axum::Router, overlap: bool) -> ServerConn {
+fn new_conn(router: &axum::Router, overlap: bool, rt: &tokio::runtime::Handle) -> ServerConn {
     let pipe = SimPipe(Arc::new(Mutex::new(PipeInner::default())));
     let flag = Arc::new(Flag(AtomicBool::new(true)));
     if overlap {
-        let remote = spawn_remote(router.clone(), pipe.clone(), flag.clone());
+        let remote = spawn_remote(router.clone(), pipe.clone(), flag.clone(), rt.clone());
         return ServerConn { fut: None, pipe, flag, panicked: None, finished: false, remote: Some(remote), suspended: None };
     }
     let svc = hyper_util::service::TowerToHyperService::new(router.clone());
@@ -561,6 +562,12 @@ fn run_inner(case: &Value) -> Value {
     };
     let mut rng = Rng::new(case["sched_seed"].as_u64().unwrap_or(0));
     let overlap = case["overlap"].as_bool().unwrap_or(false);
+    // A tokio context is entered so that a handler which uses tokio::spawn / spawn_blocking /
+    // timers still works in the simulator (the shipped handlers use none of them; nothing is
+    // ever scheduled on this runtime on the unchanged tree, so replay stays exact).
+    let rt = tokio::runtime::Builder::new_multi_thread().worker_threads(1).enable_all().build().expect("tokio runtime");
+    let _rt_guard = rt.enter();
+    let rt_handle = rt.handle().clone();
     let mut viols: Vec<Violation> = vec![];
     let mut faults: BTreeMap<String, u64> = BTreeMap::new();
     let mut probes: BTreeMap<String, u64> = BTreeMap::new();
@@ -720,6 +727,21 @@ fn run_inner(case: &Value) -> Value {
                 }
             }
             if ev.is_empty() {
+                // Work that was handed to another thread (only possible if a handler spawns tasks,
+                // which the shipped handlers do not) may still wake a connection: give it real time.
+                let t_wait = std::time::Instant::now();
+                let mut woke = false;
+                while t_wait.elapsed() < std::time::Duration::from_secs(3) {
+                    if conns.iter().any(|c| !c.finished && c.flag.0.load(Ordering::SeqCst)) {
+                        woke = true;
+                        break;
+                    }
+                    std::thread::sleep(std::time::Duration::from_millis(1));
+                }
+                if woke {
+                    *probes.entry("waited_for_cross_thread_wakeup".into()).or_insert(0) += 1;
+                    continue;
+                }
                 // nothing can happen although requests are outstanding
                 let waiting: Vec<String> = clients.iter().flat_map(|cl| cl.conns.iter().filter(|c| !c.aborted && c.answered < c.sent_reqs.len()).flat_map(|c| c.sent_reqs[c.answered..].iter().map(|&r| cl.reqs[r].id.clone())).collect::<Vec<_>>()).collect();
                 v(&mut viols, "C18.stuck_no_progress_possible", format!("no event is enabled but requests {:?} are unanswered on open connections", waiting));
@@ -742,7 +764,7 @@ fn run_inner(case: &Value) -> Value {
                 0 | 1 => {
                     let cl = &mut clients[e.1];
                     let k = if e.0 == 0 {
-                        conns.push(new_conn(&router, overlap));
+                        conns.push(new_conn(&router, overlap, &rt_handle));
                         cl.conns.push(ClientConn { conn: conns.len() - 1, sent_reqs: vec![], out: VecDeque::new(), answered: 0, aborted: false, consumed: 0 });
                         cl.conns.len() - 1
                     } else {
@@ -761,7 +783,7 @@ fn run_inner(case: &Value) -> Value {
                         // the same request is delivered a second time on another connection (retry / duplicate)
                         *faults.entry("duplicate_on_second_connection".into()).or_insert(0) += 1;
                         fault_happened_at = Some(steps);
-                        conns.push(new_conn(&router, overlap));
+                        conns.push(new_conn(&router, overlap, &rt_handle));
                         let mut dup = ClientConn { conn: conns.len() - 1, sent_reqs: vec![ri], out: VecDeque::new(), answered: 0, aborted: false, consumed: 0 };
                         for b in cl.reqs[ri].bytes.clone() {
                             dup.out.push_back((ri, b));
